@@ -59,10 +59,16 @@ class InterruptableThread(threading.Thread):
         """
         Trigger a thread ending exception!
         """
-        assert self.is_alive(), "thread must be started"
-        for thread_id, thread in threading._active.items():
+        # The thread may be ending at this very moment; then there is
+        # nothing left to interrupt
+        if not self.is_alive():
+            return
+        for thread_id, thread in list(threading._active.items()):
             if thread is self:
-                InterruptableThread._async_raise(thread_id, exception)
+                try:
+                    InterruptableThread._async_raise(thread_id, exception)
+                except ValueError:
+                    pass
                 return
 
     def terminate(self):
@@ -79,6 +85,10 @@ def timeout(duration, func, *args, **kwargs):
     longer than the specified duration, in seconds.
     """
 
+    # An optional callback that is asked before the thread is given up on; if
+    # it answers False, the function did finish at the last moment after all
+    on_timeout = kwargs.pop('_on_timeout', None)
+
     # If libraries are not available, then we execute normally
     if None in (threading, ctypes):
         return func(*args, **kwargs)
@@ -88,21 +98,26 @@ def timeout(duration, func, *args, **kwargs):
     target_thread.join(duration)
 
     if target_thread.is_alive():
-        target_thread.terminate()
-        timeout_exception = TimeoutError('Your code took too long to run '
-                                         '(it was given {} seconds); '
-                                         'maybe you have an infinite loop?'.format(duration))
-        raise timeout_exception
-    else:
-        if target_thread.exc_info[0] is not None:
-            ei = target_thread.exc_info
-            # Re-raise the very exception object: constructing a new instance
-            # from the old one fails for classes with other signatures
-            # (e.g., SyntaxError loses its position, ExceptionGroup raises).
-            e = ei[1]
-            e.__traceback__ = ei[2]
-            e.exc_info = target_thread.exc_info
-            raise e
+        if on_timeout is not None and on_timeout() is False:
+            # Finished at the very last moment: a normal completion after all
+            target_thread.join()
+        else:
+            # From here on the thread is given up on, even if it ends by
+            # itself before we get to interrupt it
+            target_thread.terminate()
+            timeout_exception = TimeoutError('Your code took too long to run '
+                                             '(it was given {} seconds); '
+                                             'maybe you have an infinite loop?'.format(duration))
+            raise timeout_exception
+    if target_thread.exc_info[0] is not None:
+        ei = target_thread.exc_info
+        # Re-raise the very exception object: constructing a new instance
+        # from the old one fails for classes with other signatures
+        # (e.g., SyntaxError loses its position, ExceptionGroup raises).
+        e = ei[1]
+        e.__traceback__ = ei[2]
+        e.exc_info = target_thread.exc_info
+        raise e
 
 
 # =========================================================================
